@@ -10,7 +10,7 @@ from harness.core import LaneBase
 
 class Lane(LaneBase):
     PROP = 'C14'
-    THEOREMS = []
+    THEOREMS = 'auto'          # = the `#print axioms` lines of the audit file
     AUDIT = 'CG/Audit/C14.lean'
     DIFF_IS_FAILURE = False
     RULE = ('template sets over 1-4 variables (names with spaces / newlines / non-ASCII), differences 0-3, all six edge '
@@ -24,7 +24,10 @@ class Lane(LaneBase):
     TRUSTED = ['the insertion order of the variable index is read from the implementation and handed to the model',
                'adjacency_matrices / to_numpy_by_lag are checked by the oracle only in this lane (their model belongs '
                'to the matrix helper)']
-    PARTIAL = []
+    PARTIAL = ['minimal_idem: proved for node set, typed edges, class, graph metadata (minimal_idem_shape); equality of '
+               'states incl. attributes is kept as `minimal_idem_statement`',
+               'is_minimal_graph(minimal graph) = true awaits the graphEq characterisation (tsGraphEqShallow swap)',
+               'adjMatrices_eq belongs to the matrix lane (the C14 lane checks it on the implementation only)']
 
     def cases(self, tier, rng):
         n = 8000 if tier == "quick" else 80000
